@@ -15,7 +15,8 @@ HARNESSES[name] = dict(
 
 # loops that get a bound of their own in every harness
 DEFAULT_LOOPS = [
-    (r"verif_kani::model::mix", 260),       # UF table scan: exact trip count is concrete, cap = UF_CAP + margin
+    (r"verif_kani::model::mix", 260),       # UF table scan (table mode): trip count is concrete, cap = UF_CAP + margin
+    (r"verif_kani::vk::any_bytes", 200),    # filling a symbolic buffer (concrete trip count N <= 181)
 ]
 
 COMMON_ASSUMPTIONS = [
@@ -84,6 +85,42 @@ H("s7_oprf_key_from_seed", "verif_kani_opaque::s7_oprf_key_from_seed",
   "oprf_key_from_seed == DeriveKeyPair(Expand(seed, cred_id || 'OprfKey', Nok), 'OPAQUE-DeriveKeyPair')",
   "seed 8 bytes, credential identifier 0..=2 bytes, all symbolic",
   covers=["reached"], loops=[(r"derive_key", 2)])
+
+# ---- S12
+H("s12_i2osp_all_usize", "h_inputs::s12_i2osp_all_usize", "I2OSP(n,1)/I2OSP(n,2): Ok <=> n fits, big-endian value", "every usize n",
+  covers=["255 fits", "256 refused", "65535 fits", "65536 refused"])
+H("s12_input_from_all_lengths", "h_inputs::s12_input_from_all_lengths",
+  "Input::from(x): Ok <=> len fits the prefix; emits prefix || x verbatim (no truncation / wrap)", "every length 0..=131073",
+  covers=["65535", "empty", "65536 refused", "255", "256 refused"])
+H("s12_input_from_label", "h_inputs::s12_input_from_label", "Expand-Label label encoding: 1-byte length of 'OPAQUE-'||label, parts verbatim",
+  "label lengths 0..=300", covers=["longest label", "249 refused"])
+H("s12_identifiers_defaulting", "h_inputs::s12_identifiers_defaulting",
+  "bytestrings_from_identifiers: absent identity == own public key, explicit verbatim, never swapped, > 65535 refused",
+  "both identities absent/present with every length 0..=70000; public keys symbolic",
+  covers=["explicit client, default server", "default client, 65535-byte server", "refused"])
+
+# ---- S2-S5, S13
+KEYLOOPS = [(r"derive_auth_keypair", 2), (r"derive_key", 2)]
+for pw in ("pw0", "pw2"):
+    H("s2_client_reg_start_" + pw, "h_steps::s2_client_reg_start_" + pw,
+      "ClientRegistration::start: request == blind*HashToGroup(pw); blind = the tape byte drawn (production blind()); state remembers the request; same tape => same output",
+      "password %s bytes; tape fully symbolic (first byte a valid scalar)" % pw[2:], covers=["reached"])
+    H("s3_client_login_start_" + pw, "h_steps::s3_client_login_start_" + pw,
+      "ClientLogin::start: request per RFC 9497 Blind; ephemeral key = DeriveDiffieHellmanKeyPair(own tape segment); nonce = own 32 tape bytes; state == what was sent; exactly 34 bytes drawn",
+      "password %s bytes; tape fully symbolic" % pw[2:], covers=["reached"], loops=KEYLOOPS)
+for c in ("cred0", "cred2"):
+    H("s4_server_reg_start_" + c, "h_steps::s4_server_reg_start_" + c,
+      "ServerRegistration::start: evaluation == DeriveKeyPair(Expand(seed, cred||'OprfKey'))*request, server_s_pk == public key of the setup's key",
+      "setup = every decodable 10-byte string, every valid request, credential id %s bytes" % c[4:], covers=["reached"], loops=KEYLOOPS)
+H("s4_server_reg_start_external_key", "h_steps::s4_server_reg_start_external_key",
+  "with an externally held key: same response, no fallible key call in start, key never serialized, failing key => its own error",
+  "every key, failure at call 0(never)/1/2, every request, 1-byte credential id", covers=["reached", "external key failure"], loops=KEYLOOPS)
+H("s5_server_setup_new", "h_steps::s5_server_setup_new",
+  "ServerSetup::new: static key, OPRF seed, fake key from disjoint tape segments (10 bytes in all); round trip through serialize/deserialize",
+  "tape fully symbolic", covers=["reached"], loops=KEYLOOPS)
+H("s13_dummy_record", "h_steps::s13_dummy_record",
+  "fake record for unregistered users: fresh 8-byte masking key from the RNG, all-zero envelope, setup's fake public key",
+  "every decodable setup, tape symbolic", covers=["reached"])
 
 PROPERTIES["C03"] = dict(
     quick=["c03_server_finish_exact", "d_cred_fin", "d_server_login"],
